@@ -393,6 +393,43 @@ func posMonitor(args []string) int {
 		}
 		rep.Sample(map[string]interface{}{"fen": p.StringFen(), "history_len": len(g.Moves)})
 	})
+	// key families: on boards where every castling right and an en-passant square on every file make sense, all
+	// combinations of side to move x 16 rights sets x (no en-passant square or one of 8 files) are set up; positions
+	// that print different placement/side/rights/en-passant fields must have different keys - also when they differ
+	// in two or three of the components at once (key components that cancel each other)
+	for _, brd := range []string{"r3k2r/8/8/pPpPpPpP/8/8/8/R3K2R", "r3k2r/8/8/8/pPpPpPpP/8/8/R3K2R", "r3k2r/2p2p2/8/pP1Pp1pP/Pp1pP1Pp/8/2P2P2/R3K2R"} {
+		famKey := map[uint64]string{}
+		for _, stm := range []string{"w", "b"} {
+			for r := 0; r < 16; r++ {
+				rights := ""
+				for bi, c := range "KQkq" {
+					if r&(1<<uint(bi)) != 0 {
+						rights += string(c)
+					}
+				}
+				if rights == "" {
+					rights = "-"
+				}
+				eps := []string{"-"}
+				for f := 0; f < 8; f++ {
+					eps = append(eps, string(rune('a'+f))+map[string]string{"w": "6", "b": "3"}[stm])
+				}
+				for _, ep := range eps {
+					fen := brd + " " + stm + " " + rights + " " + ep + " 0 1"
+					q, err := position.NewPositionFen(fen)
+					if err != nil || q == nil {
+						continue
+					}
+					core := strings.Join(strings.Fields(q.StringFen())[:4], " ")
+					rep.Stats["key_family_positions"]++
+					if other, ok := famKey[uint64(q.ZobristKey())]; ok && other != core {
+						rep.Violate("different-positions-same-key", map[string]interface{}{"fen": core + " 0 1", "variant": other + " 0 1"}, "two positions that differ only in side / castling rights / en-passant square share a key")
+					}
+					famKey[uint64(q.ZobristKey())] = core
+				}
+			}
+		}
+	}
 	// a game as long as the undo history allows (MaxMoves plies) on ONE position object: every successor
 	// compared with the successor of a fresh position, then everything undone again
 	{
